@@ -98,11 +98,20 @@ AbsentOfEmpty(e, lbl) ==
          (lbl = "a" /\ e.e.ma = "empty") \/ (lbl = "b" /\ e.e.mb = "empty")
     [] OTHER -> AbsentOfEmpty(e.e, lbl)
 
+\* label_replace(e, lbl, "", ...) somewhere in e: the empty replacement removes lbl, the analysis guarantees it
+RECURSIVE ReplacedByEmpty(_, _)
+ReplacedByEmpty(e, lbl) ==
+  CASE e.k \in {"sel", "num", "time"} -> FALSE
+    [] e.k = "bin" -> ReplacedByEmpty(e.l, lbl) \/ ReplacedByEmpty(e.r, lbl)
+    [] e.k = "fn" /\ e.f = "lrep" /\ e.dst = lbl /\ e.repl = "" -> TRUE
+    [] OTHER -> ReplacedByEmpty(e.e, lbl)
+
 Cause(b, c, f) ==
   CASE f.kind = "join" ->
          (CASE b.vm = "ign" /\ f.label \in b.ls -> "label-is-ignored"
             [] b.vm = "on" /\ f.label \in ToSet(IF b.grp = "right" THEN c.rcannot ELSE c.lcannot) -> "on-label-on-neither-side"
             [] AbsentOfEmpty(IF b.grp = "right" THEN b.r ELSE b.l, f.label) -> "absent-of-empty-matcher"
+            [] ReplacedByEmpty(IF b.grp = "right" THEN b.r ELSE b.l, f.label) -> "label-replaced-by-empty"
             [] OTHER -> "-")
     [] f.kind = "or" -> IF ~(b.vm = "on" /\ b.ls = {}) THEN "or-without-on()" ELSE "lhs-always" \o HazardStr(Hazards(b.l))
     [] f.kind = "unless" -> "rhs-always" \o HazardStr(Hazards(b.r))
